@@ -3,6 +3,8 @@ from __future__ import annotations
 
 import copy
 
+import json
+
 from hypothesis import strategies as st
 
 import apischema
@@ -74,6 +76,15 @@ def _bait(draw, d):
 def data_fn(draw, prog, t, opts):
     r = draw(st.integers(0, 99))
     dyn = opts["aliaser"]
+    if '"val"' in json.dumps(prog) and r < 25:
+        # leaf validators: the refused value itself (right-typed: strict mode rejects it because of the validator only),
+        # or a string coercible to it
+        gen._BOUNDARY[0] = True
+        try:
+            d = gen.valid(draw, prog, t, dyn)
+        finally:
+            gen._BOUNDARY[0] = False
+        return d, "validator_boundary"
     if r < 60:
         return _bait(draw, gen.valid(draw, prog, t, dyn)), "bait"
     if r < 72:
